@@ -3,6 +3,7 @@
 //! stored outside the visible rectangle is not part of the abstraction (only counted).
 
 use std::collections::BTreeSet;
+use std::rc::Rc;
 
 use memterm::modes::DECSCNM;
 use memterm::screen::{CharOpts, Charset, Cursor, Margins, Savepoint, Screen};
@@ -28,7 +29,8 @@ pub struct SaveSnap {
 pub struct Snapshot {
     pub lines: u32,
     pub columns: u32,
-    pub grid: Vec<Vec<Cell>>,
+    /// rows are shared between successive snapshots when unchanged (cheap clone, cheap diff)
+    pub grid: Vec<Rc<Vec<Cell>>>,
     pub x: u32,
     pub y: u32,
     pub attr: Cell,
@@ -73,28 +75,40 @@ fn cs(c: Charset) -> u8 {
 
 impl Snapshot {
     pub fn take(s: &Screen) -> Snapshot {
+        Snapshot::take_from(s, None)
+    }
+
+    /// Like take(), but rows equal to the corresponding row of `prev` share its allocation.
+    pub fn take_from(s: &Screen, prev: Option<&Snapshot>) -> Snapshot {
         let blank = blank_of(s.mode.contains(&DECSCNM));
-        let mut grid = Vec::with_capacity(s.lines as usize);
+        let mut grid: Vec<Rc<Vec<Cell>>> = Vec::with_capacity(s.lines as usize);
         let mut absent_rows = 0;
+        let cols = s.columns as usize;
         for y in 0..s.lines {
-            let mut row = Vec::with_capacity(s.columns as usize);
-            match s.buffer.get(&y) {
-                None => {
-                    absent_rows += 1;
-                    for _ in 0..s.columns {
-                        row.push(blank.clone());
-                    }
+            let line = s.buffer.get(&y);
+            if line.is_none() {
+                absent_rows += 1;
+            }
+            let cell_at = |x: u32| -> &Cell {
+                match line.and_then(|l| l.get(&x)) {
+                    Some(c) => c,
+                    None => &blank,
                 }
-                Some(line) => {
-                    for x in 0..s.columns {
-                        match line.get(&x) {
-                            Some(c) => row.push(c.clone()),
-                            None => row.push(blank.clone()),
-                        }
+            };
+            // reuse the previous row when it is identical
+            if let Some(p) = prev {
+                if let Some(prow) = p.grid.get(y as usize) {
+                    if prow.len() == cols && (0..s.columns).all(|x| &prow[x as usize] == cell_at(x)) {
+                        grid.push(Rc::clone(prow));
+                        continue;
                     }
                 }
             }
-            grid.push(row);
+            let mut row = Vec::with_capacity(cols);
+            for x in 0..s.columns {
+                row.push(cell_at(x).clone());
+            }
+            grid.push(Rc::new(row));
         }
         let mut hidden_cells = 0;
         for (y, line) in s.buffer.iter() {
@@ -146,6 +160,14 @@ impl Snapshot {
         blank_of(self.mode.contains(&DECSCNM))
     }
 
+    pub fn row_mut(&mut self, y: usize) -> &mut Vec<Cell> {
+        Rc::make_mut(&mut self.grid[y])
+    }
+
+    pub fn set_cell(&mut self, y: usize, x: usize, c: Cell) {
+        Rc::make_mut(&mut self.grid[y])[x] = c;
+    }
+
     pub fn has(&self, mode: u32) -> bool {
         self.mode.contains(&mode)
     }
@@ -161,6 +183,7 @@ impl Snapshot {
         use unicode_width::UnicodeWidthChar;
         let mut out = Vec::new();
         for row in &self.grid {
+            let row: &Vec<Cell> = row;
             let mut s = String::new();
             let mut x = 0usize;
             while x < row.len() {
@@ -189,7 +212,7 @@ impl Snapshot {
         mix(self.lines as u64);
         mix(self.columns as u64);
         for row in &self.grid {
-            for c in row {
+            for c in row.iter() {
                 mix(cell_hash(c));
             }
         }
@@ -225,6 +248,9 @@ impl Snapshot {
             ));
         }
         for y in 0..self.grid.len() {
+            if Rc::ptr_eq(&self.grid[y], &other.grid[y]) {
+                continue;
+            }
             for x in 0..self.grid[y].len() {
                 if self.grid[y][x] != other.grid[y][x] {
                     return Some(format!(
